@@ -161,7 +161,7 @@ pub fn gen_history(rng: &mut StdRng, max_blocks: usize, may_seal: bool) -> Histo
     let v33 = rng.gen_range(0..4) == 0;
     let mut b = BiscuitBuilder::new().merge(block_builder(rng, v33));
     if rng.gen_range(0..3) == 0 {
-        b = b.root_key_id(rng.gen_range(0..5));
+        b = b.root_key_id(*pick(rng, &[0u32, 0, 1, 4, u32::MAX]));
     }
     let mut token = b.build_with_key_pair(&root, SymbolTable::new(), &next).unwrap();
     ops.push(format!("build(root={:?},next={:?},v33={})", root.algorithm(), next.algorithm(), v33));
@@ -359,7 +359,7 @@ pub fn mutations(w: &schema::Biscuit, other: &schema::Biscuit, earlier: Option<&
     out.push(("proof removed".into(), m));
     // the unauthenticated hint
     let mut m = w.clone();
-    m.root_key_id = match w.root_key_id { Some(k) => Some(k + 1), None => Some(3) };
+    m.root_key_id = match w.root_key_id { Some(k) => Some(k.wrapping_add(1)), None => Some(3) };
     out.push(("root_key_id changed".into(), m));
     let mut m = w.clone();
     m.root_key_id = None;
@@ -441,6 +441,9 @@ pub fn run(opts: &Opts) {
             let w = decode(&bytes).unwrap();
             let mut out = present(&bytes, &h.root.public());
             out["ids_in_memory"] = json!(t.revocation_identifiers().iter().map(hex::encode).collect::<Vec<_>>());
+            out["root_key_id_in_memory"] = json!(t.root_key_id());
+            out["block_count_in_memory"] = json!(t.block_count());
+            out["ext_keys_in_memory"] = json!(t.external_public_keys().iter().map(|k| k.as_ref().map(pubkey_json)).collect::<Vec<_>>());
             out["wire_bytes"] = json!(hex::encode(&bytes));
             let dvs: Vec<Option<u32>> = (0..t.block_count()).map(|i| t.block_version(i).ok()).collect();
             let case = json!({"op": "chain", "mutation": "none", "stage": k, "history": h.ops, "root": pubkey_json(&h.root.public()),
@@ -490,6 +493,30 @@ pub fn run(opts: &Opts) {
                 *stats.entry(format!("mut:{}/accept:{}", class.trim(), out["accept"])).or_insert(0) += 1;
                 sink.put(&case, &out);
             }
+        }
+    }
+    // honest secp256r1 tokens whose DER signature is shorter than usual (r or s with a leading zero byte:
+    // about one signature in 128): searched for, since a random history seldom has one
+    for i in 0..(if opts.thorough { 12 } else { 3 }) {
+        let mut rng = case_rng(opts.seed, 4, i as u64);
+        let root = KeyPair::new_with_rng(Algorithm::Secp256r1, &mut rng);
+        let next = KeyPair::new_with_rng(alg_of(rng.gen_range(0..2)), &mut rng);
+        for n in 0..4000i64 {
+            let b = BiscuitBuilder::new().fact(Fact::new("n".to_string(), vec![Term::Integer(n), Term::Integer(i as i64)])).unwrap();
+            let t = b.build_with_key_pair(&root, SymbolTable::new(), &next).unwrap();
+            let bytes = t.to_vec().unwrap();
+            let w = decode(&bytes).unwrap();
+            if w.authority.signature.len() >= 70 {
+                continue;
+            }
+            let out = present(&bytes, &root.public());
+            let secrets = json!([{"alg": next.public().to_proto().algorithm, "sk": hex::encode(next.private().to_bytes()), "pk": pubkey_json(&next.public())}]);
+            let case = json!({"op": "chain", "mutation": format!("honest token with a {}-byte DER signature", w.authority.signature.len()), "stage": 0,
+                "history": ["build(root=Secp256r1)"], "root": pubkey_json(&root.public()),
+                "honest": [json!({"root": pubkey_json(&root.public()), "token": wire_json(&w)})], "subject": wire_json(&w), "secrets": secrets});
+            *stats.entry(format!("short-der/accept:{}", out["accept"])).or_insert(0) += 1;
+            sink.put(&case, &out);
+            break;
         }
     }
     // every operation on a sealed token, through both APIs, before and after a round trip
